@@ -149,6 +149,18 @@ func (a *AVP) SerializeTo(b []byte) error {
 	if a.Flags&avp.Vbit == avp.Vbit {
 		binary.BigEndian.PutUint32(b[8:12], a.VendorID)
 	}
+	if g, ok := a.Data.(*GroupedAVP); ok {
+		// The members are written in place: Serialize would allocate
+		// the size of the group once more at every level of nesting.
+		n := hl
+		for _, m := range g.AVP {
+			if err := m.SerializeTo(b[n:]); err != nil {
+				return err
+			}
+			n += m.Len()
+		}
+		return nil
+	}
 	payload := a.Data.Serialize()
 	copy(b[hl:], payload)
 	// reset padding bytes
